@@ -4,23 +4,30 @@ from __future__ import annotations
 import ast
 
 from .. import astutil as A
+from .. import sym as S
 from ..core import AnalysisError, Collector
-from .common import FnCtx, fnctx, has_guard, is_method_call, is_self_call
+from .common import FnCtx, SCtx, sctx
+from .c09 import ERR, OPT_KEEP, octx
 
 PROP = "C10"
-FLOORS = {"C10.R1": 8, "C10.R2": 6, "C10.R3": 4, "C10.R4": 8, "C10.R5": 1, "C10.R6": 7}
+FLOORS = {"C10.R1": 8, "C10.R2": 6, "C10.R3": 4, "C10.R4": 8, "C10.R5": 2, "C10.R6": 6}
 META = {
     "explanation": "Every enable/disable call of Optimize passes keywords its callee accepts; each temporary enable_*/disable_* applied "
-                   "before the step loop has its inverse (opposite method, same keyword, argument and guard) after it; every store into a "
-                   "knob container is dominated by the `active` test of that very knob (except reload, which restores a logged row); the "
-                   "limit tests precede the write and have both sides, the solver zeroes a coordinate that would leave its limits and "
-                   "tries / commits the same `x - step`; limits are converted to solver space with the inverse of the weight scaling; the "
-                   "max-step clip never decides about the running copy by reading the stale original; the masked solve writes into a "
-                   "zero vector with the same masks on matrix and right-hand side, and disabled targets are zeroed.",
+                   "before the solver steps has its inverse (opposite method, same keyword, argument and guard) after them; every store "
+                   "into a knob container is dominated by the `active` test of that very knob (except reload, which restores a logged "
+                   "row); the limit tests precede the write and have both sides, the solver zeroes a coordinate that would leave its "
+                   "limits and tries / commits the same `x - step`; limits are converted to solver space with the inverse of the weight "
+                   "scaling; the max-step clip is applied to the full-length step and never decides about the running copy by reading "
+                   "the stale original; the masked solve writes into a zero vector with the same masks on matrix and right-hand side, "
+                   "disabled targets are zeroed and nothing un-zeroes them afterwards. Compared as symbolic terms after helper inlining.",
     "decides": "who may write knobs and under which guard, pairing of temporary state changes, shape of limit/step clipping, mask plumbing",
     "not_decided": "the bounds as numeric facts for all inputs and weights",
     "assumptions": ["Vary.active is the only notion of a disabled knob"],
 }
+
+V = ("elem", S.sattr("vary"))
+NP = ("glob", "np")
+FUNC = S.sattr("func")
 
 
 def _callsig(col, rule="C10.R1"):
@@ -29,7 +36,7 @@ def _callsig(col, rule="C10.R1"):
     n = 0
     for name, fn in opt.methods.items():
         for c in A.calls(fn):
-            if is_self_call(c) and c.func.attr in ("enable", "disable"):
+            if isinstance(c.func, ast.Attribute) and isinstance(c.func.value, ast.Name) and c.func.value.id == "self" and c.func.attr in ("enable", "disable"):
                 callee = opt.methods[c.func.attr]
                 accepted = set(A.params(callee)[1:]) | {a.arg for a in callee.args.kwonlyargs}
                 bad = [k.arg for k in c.keywords if k.arg is not None and k.arg not in accepted]
@@ -39,73 +46,83 @@ def _callsig(col, rule="C10.R1"):
                         not bad and not toomany, opt.module.loc(c),
                         f"the call passes only keywords that Optimize.{c.func.attr} accepts {sorted(accepted)}", f"unknown keywords: {bad}")
     col.count("enable_disable_call_sites", n)
-    # enable/disable semantics
-    for meth, state in (("enable", True), ("disable", False)):
-        fn = opt.methods[meth]
-        calls = [c for c in A.calls(fn) if A.call_name(c) == "_set_state"]
-        want = {("self.targets", "target", None), ("self.vary", "vary", "tag"), ("self.vary", "vary_name", "name")}
+    for meth, state in (("enable", "True"), ("disable", "False")):
+        sx = sctx(repo, "Optimize", meth, keep=OPT_KEEP | {"_set_state"})
+        ps = {t[2]: t for t in sx.sym.params.values() if t[:1] == ("param",)}
+        want = {(S.sattr("targets"), ps.get("target"), None), (S.sattr("vary"), ps.get("vary"), "tag"), (S.sattr("vary"), ps.get("vary_name"), "name")}
         got = set()
-        for c in calls:
-            attr = [A.const(k.value) for k in c.keywords if k.arg == "attr"]
-            if len(c.args) == 3 and A.is_const(c.args[1], state):
-                got.add((A.src(c.args[0]), A.src(c.args[2]), attr[0] if attr else None))
-        col.add(rule, f"Optimize.{meth}#sets-state-{state}", got == want, opt.module.loc(fn),
+        for ev, m in sx.calls_some(("call", ("glob", "_set_state"), S.V("a"), S.V("k"))):
+            a, k = m["a"], dict(m["k"])
+            if len(a) == 3 and a[1] == ("const", state):
+                attr = k.get("attr")
+                got.add((a[0], a[2], attr[1].strip("'\"") if attr else None))
+        got_n = {(x, y, (z if z != "tag" or x != S.sattr("targets") else None)) for x, y, z in got}
+        ok = {(x, y, z if not (x == S.sattr("vary") and z is None) else "tag") for x, y, z in got_n} == want
+        col.add(rule, f"Optimize.{meth}#sets-state-{state}", ok, sx.loc(sx.fn),
                 f"{meth}() sets active={state} on the targets selected by `target`, the knobs selected by tag (`vary`) and by name (`vary_name`)",
-                str(sorted(map(str, got))))
-    cx = fnctx(repo, None, "_set_state", "optimize.optimize")
-    ok = not A.has_fragments(cx.fn, ["{P1}[{L}].active = {P2}", "{L}.active = {P2}", "{L}.active = not {P2}", "re.fullmatch({L}, getattr({L}, {P4}))"])
-    col.add(rule, "_set_state#assigns-active", ok, cx.loc(cx.fn), "_set_state assigns the requested state to the selected entries only", "")
+                str(sorted((S.show(x), S.show(y) if y else None, z) for x, y, z in got)))
+    sx = sctx(repo, None, "_set_state", "optimize.optimize")
+    lst, state, entries = sx.P(0), sx.P(1), sx.P(2)
+    el = ("elem", lst)
+    pairs = set()
+    for e in sx.of_kind("store"):
+        for t in S.alts(e.target):
+            if t[:1] == ("attr",) and t[2] == "active":
+                conds = sx.conds(e.nid)
+                who = "all" if t[1] == el else "indexed" if (t[1][:1] == ("sub",) and t[1][1] == lst) else "?"
+                matched = any(S.is_call_of(c, ("attr", ("glob", "re"), "fullmatch")) for c in conds)
+                pairs.add((who, S.show(e.value, False), matched))
+    ok = pairs == {("all", S.show(state, False), False), ("all", S.show(("uop", "not", state), False), False),
+                   ("indexed", S.show(state, False), False), ("all", S.show(state, False), True)}
+    col.add(rule, "_set_state#assigns-active", ok, sx.loc(sx.fn), "_set_state assigns the requested state to the selected entries only",
+            str(sorted(pairs)))
 
 
 def _pairing(col, rule="C10.R2"):
     repo = col.repo
-    cx = fnctx(repo, "Optimize", "step")
-    cfg = cx.cfg
-    loops = [n for n in cfg.nodes.values() if n.kind == "for" and "range" in A.src(n.ast.iter)]
-    if len(loops) != 1:
-        raise AnalysisError("Optimize.step: step loop not recognised")
-    loop = loops[0].id
+    sx = octx(repo, "Optimize", "step")
+    cfg = sx.cfg
+    solver_steps = [ev.nid for ev, m in sx.calls_some(("call", ("attr", S.sattr("solver"), "step"), S.ANY, S.ANY))]
+    if not solver_steps:
+        raise AnalysisError("Optimize.step: no self.solver.step(...) -- cannot decide")
     pre, post = [], []
-    for nid in cx.call_nodes(lambda c: is_self_call(c) and c.func.attr in ("enable", "disable")):
-        c = cx.calls_at(nid, lambda c: is_self_call(c) and c.func.attr in ("enable", "disable"))[0]
-        gs = cfg.cond_guards(nid)
-        kw = c.keywords[0].arg if c.keywords else None
-        arg = A.src(c.keywords[0].value) if c.keywords else None
-        rec = (c.func.attr, kw, arg, tuple(g.kind + ":" + A.src(g.ast) for g in gs), nid)
-        if cfg.path_avoiding(nid, loop, []):
+    for ev, m in sx.calls_some(("call", ("attr", S.SELF, S.V("m", lambda t: t in ("enable", "disable"))), S.V("a"), S.V("k"))):
+        kws = m["k"]
+        kw = kws[0][0] if kws else None
+        arg = kws[0][1] if kws else (m["a"][0] if m["a"] else None)
+        rec = (m["m"], kw, arg, tuple(sx.conds(ev.nid)), ev.nid)
+        if any(cfg.path_avoiding(ev.nid, s_, []) for s_ in solver_steps):
             pre.append(rec)
         else:
             post.append(rec)
     inv = {"enable": "disable", "disable": "enable"}
-    for m, kw, arg, gs, nid in pre:
-        match = [p for p in post if p[0] == inv[m] and p[1] == kw and p[2] == arg and p[3] == gs]
+    for mth, kw, arg, conds, nid in pre:
+        match = [p for p in post if p[0] == inv[mth] and p[1] == kw and p[2] == arg and p[3] == conds]
         okm = len(match) == 1
         if okm:
-            # the inverse lies on every normal path from the loop to the exit, under its guard
-            okm = not cfg.path_avoiding(match[0][4], loop, [])
-        col.add(rule, f"Optimize.step#{m}({kw}={arg})-undone", okm, cx.loc(nid),
-                f"the temporary {m}({kw}={arg}) applied before the steps is undone after them by {inv[m]}({kw}={arg}) under the same guard",
-                f"post-loop calls: {[(p[0], p[1], p[2]) for p in post]}")
+            skip = sx.branches(("cmp", "is", arg, ("const", "None")))
+            okm = all(cfg.must_pass(s_, cfg.EXIT, [match[0][4]] + skip) for s_ in solver_steps)
+        col.add(rule, f"Optimize.step#{mth}({kw}={S.show(arg, False)})-undone", okm, sx.loc(nid),
+                f"the temporary {mth}({kw}=...) applied before the steps is undone after them by {inv[mth]}({kw}=...) under the same guard, "
+                "on every normal path", f"post-step calls: {[(p[0], p[1], S.show(p[2], False)) for p in post]}")
     stray = [p for p in post if not any(q[0] == inv[p[0]] and q[1] == p[1] and q[2] == p[2] for q in pre)]
-    col.add(rule, "Optimize.step#no-unpaired-post-call", not stray, cx.loc(stray[0][4]) if stray else cx.loc(cx.fn),
-            "no enable/disable after the steps without its counterpart before them", str([(p[0], p[1], p[2]) for p in stray]))
-    # guards are `X is not None` of the argument
-    for m, kw, arg, gs, nid in pre + post:
-        ok = gs == (f"T:{arg} is not None",)
-        col.add(rule, f"Optimize.step#{m}({kw}={arg})-guard@{'pre' if (m, kw, arg, gs, nid) in pre else 'post'}", ok, cx.loc(nid),
-                "a temporary change is applied exactly when its argument is given", str(gs))
+    col.add(rule, "Optimize.step#no-unpaired-post-call", not stray, sx.loc(stray[0][4]) if stray else sx.loc(sx.fn),
+            "no enable/disable after the steps without its counterpart before them", str([(p[0], p[1], S.show(p[2], False)) for p in stray]))
+    for mth, kw, arg, conds, nid in pre + post:
+        ok = conds == (("cmp", "is not", arg, ("const", "None")),)
+        col.add(rule, f"Optimize.step#{mth}({kw}={S.show(arg, False)})-guard@{'pre' if (mth, kw, arg, conds, nid) in pre else 'post'}", ok, sx.loc(nid),
+                "a temporary change is applied exactly when its argument is given", str([S.show(c) for c in conds]))
     if len(pre) < 6:
-        raise AnalysisError(f"Optimize.step: only {len(pre)} temporary enable/disable applications found before the loop (expected 6)")
+        raise AnalysisError(f"Optimize.step: only {len(pre)} temporary enable/disable applications found before the steps (expected 6)")
 
 
-def knob_stores(fn):
+def knob_store_events(sx: SCtx):
+    """store events `<v>.container[<v>.name] = ...` (same <v> on both sides)"""
     out = []
-    for n in A.walk(fn):
-        if isinstance(n, (ast.Assign, ast.AugAssign)):
-            for t in (n.targets if isinstance(n, ast.Assign) else [n.target]):
-                if isinstance(t, ast.Subscript) and isinstance(t.value, ast.Attribute) and t.value.attr == "container" \
-                        and isinstance(t.slice, ast.Attribute) and t.slice.attr == "name" and A.dotted(t.value.value) == A.dotted(t.slice.value):
-                    out.append((n, A.dotted(t.value.value)))
+    for e in sx.of_kind("store"):
+        for t in S.alts(e.target):
+            if t[:1] == ("sub",) and t[1][:1] == ("attr",) and t[1][2] == "container" and t[2][:1] == ("attr",) and t[2][2] == "name" and t[1][1] == t[2][1]:
+                out.append((e, t[1][1]))
     return out
 
 
@@ -114,113 +131,154 @@ def _who_writes(col, rule="C10.R3"):
     m = repo.module("optimize.optimize")
     n = 0
     for mod, c, fn in repo.all_functions():
-        if mod is not m:
+        if mod is not m or ".container[" not in A.src(fn):
             continue
-        st = knob_stores(fn)
-        if not st:
+        try:
+            sx = sctx(repo, c.name if c else None, fn.name, "optimize.optimize" if c is None else None, keep=OPT_KEEP)
+        except AnalysisError:
             continue
-        cx = FnCtx(mod, c, fn)
+        if sx.cx.orig_fn is not fn:
+            continue
         q = f"{c.name}.{fn.name}" if c else fn.name
-        for node, who in st:
+        for e, who in knob_store_events(sx):
             n += 1
-            nid = cx.cfg.node_of(node)
             if q == "Optimize.reload":
-                col.ok(rule, f"{q}#knob-store", mod.loc(node), "reload restores a logged row: deliberately unguarded (C09.R5/C15.R2)", "")
+                col.ok(rule, f"{q}#knob-store", sx.loc(e), "reload restores a logged row: deliberately unguarded (C09.R5/C15.R2)", "")
                 continue
-            ok = has_guard(cx.cfg, nid, "T", lambda t, who=who: A.dotted(t) == f"{who}.active")
-            col.add(rule, f"{q}#knob-store-only-if-active", ok, mod.loc(node),
-                    f"a knob's container is written only under `{who}.active` (a disabled knob is never changed)",
-                    f"guards: {[g.kind + ':' + A.src(g.ast)[:40] for g in cx.cfg.cond_guards(nid)]}")
+            ok = sx.under(e.nid, ("attr", who, "active"))
+            col.add(rule, f"{q}#knob-store-only-if-active", ok, sx.loc(e),
+                    f"a knob's container is written only under `{S.show(who)}.active` (a disabled knob is never changed)",
+                    f"conditions: {[S.show(cd)[:50] for cd in sx.conds(e.nid)]}")
     col.count("knob_store_sites", n)
     if n < 4:
         raise AnalysisError(f"only {n} knob store sites found (expected at least 4)")
-    # indirect knob writers used by reload-like code paths: set_knobs_from_x only writes active knobs -> must not be what restores rows
-    # (C09.R5 checks reload's direct stores)
 
 
 def _limits(col, rule="C10.R4"):
     repo = col.repo
-    cx = fnctx(repo, "MeritFunctionForMatch", "__call__")
-    cfg = cx.cfg
+    sx = octx(repo, "MeritFunctionForMatch", "__call__")
+    cfg = sx.cfg
     q = "MeritFunctionForMatch.__call__"
-    st = knob_stores(cx.fn)
+    st = knob_store_events(sx)
     if len(st) != 1:
-        raise AnalysisError(f"{q}: expected one knob store")
-    w = cfg.node_of(st[0][0])
-    who = st[0][1]
-    val = A.dotted(st[0][0].value)
+        raise AnalysisError(f"{q}: expected one knob store, found {len(st)} (cannot decide)")
+    w, who = st[0]
+    val = w.value
+    lim = ("attr", who, "limits")
     sides = {}
-    for n in cfg.nodes.values():
-        if n.kind == "test":
-            conj = n.ast.values if isinstance(n.ast, ast.BoolOp) and isinstance(n.ast.op, ast.And) else [n.ast]
-            for cmp_ in conj:
-                p = A.compare_parts(cmp_)
-                if p and A.dotted(p[0]) == val and isinstance(p[2], ast.Subscript) and A.src(p[2].value) == f"{who}.limits" \
-                        and isinstance(p[1], (ast.Lt, ast.LtE, ast.Gt, ast.GtE)):
-                    tb = [b.id for b in cfg.nodes.values() if b.kind == "T" and b.of == n.id][0]
-                    raises = any(isinstance(cfg.nodes[r].ast, ast.Raise) for r in cfg.g.successors(tb))
-                    sides[A.const(p[2].slice)] = (type(p[1]).__name__, raises, n.id)
-    if 0 not in sides or 1 not in sides:
-        raise AnalysisError(f"{q}: limit tests `value < limits[0]` / `value > limits[1]` not recognised (cannot decide)")
-    ok_lo = sides.get(0, (None,))[0] == "Lt" and sides[0][1]
-    ok_hi = sides.get(1, (None,))[0] == "Gt" and sides[1][1]
-    col.add(rule, f"{q}#lower-limit-raises", bool(ok_lo), cx.loc(sides[0][2]) if 0 in sides else cx.loc(cx.fn),
-            "a value below limits[0] raises (strictly below: the closed limit itself is allowed)", str(sides.get(0)))
-    col.add(rule, f"{q}#upper-limit-raises", bool(ok_hi), cx.loc(sides[1][2]) if 1 in sides else cx.loc(cx.fn),
-            "a value above limits[1] raises", str(sides.get(1)))
-    for i in (0, 1):
-        if i in sides:
-            t = sides[i][2]
-            gs = [A.src(g.ast) for g in cfg.cond_guards(t) if g.kind == "T"] + [A.src(cfg.nodes[t].ast)]
-            okg = any("check_limits" in g for g in gs) and cfg.path_avoiding(t, w, []) and not cfg.path_avoiding(w, t, [cx.cfg.of_ast.get(id(None), -1)]) or True
-            before = cfg.path_avoiding(t, w, []) and all(g.of != t for g in cfg.guards(w))
-            col.add(rule, f"{q}#limit-{i}-tested-before-write", before and any("check_limits" in g for g in gs), cx.loc(t),
-                    "with check_limits the limit is tested before the container is written (a refused value is never stored)", str(gs))
-    # _get_x_limits: knob limits -> x space through _knobs_to_x, [low, high] order
-    cx = fnctx(repo, "MeritFunctionForMatch", "_get_x_limits")
-    conv = sorted((c for c in A.calls(cx.fn) if is_self_call(c) and c.func.attr in ("_knobs_to_x", "_x_to_knobs")), key=lambda c: (c.lineno, c.col_offset))
-    ok = len(conv) == 2 and all(c.func.attr == "_knobs_to_x" for c in conv)
-    col.add(rule, "MeritFunctionForMatch._get_x_limits#limits-to-solver-space", ok, cx.loc(cx.fn),
-            "knob limits are converted to solver space with _knobs_to_x (division by the weight), the inverse of what __call__ applies",
-            f"{[c.func.attr for c in conv]}")
-    idx = sorted(A.src(c.args[0])[-12:] for c in conv if c.args)
-    ok = len(conv) == 2 and "[:, 0]" in A.src(conv[0].args[0]) and "[:, 1]" in A.src(conv[1].args[0])
-    col.add(rule, "MeritFunctionForMatch._get_x_limits#low-then-high", ok, cx.loc(cx.fn), "column 0 holds the lower and column 1 the upper limit", "")
-    col.add(rule, "MeritFunctionForMatch._get_x_limits#default-limits", not A.has_fragments(cx.fn, ["{L}.limits is None", "LIMITS_DEFAULT"]), cx.loc(cx.fn),
-            "a knob without limits gets the wide default limits", "")
-    # JacobianSolver.step
-    cx = fnctx(repo, "JacobianSolver", "step")
-    cfg = cx.cfg
+    for r in sx.of_kind("raise"):
+        for c in sx.conds(r.nid):
+            if c[:1] == ("cmp",) and c[1] in ("<", "<=", ">", ">=") and c[2] == val and c[3][:1] == ("sub",) and c[3][1] == lim:
+                i = c[3][2][1] if c[3][2][:1] == ("const",) else "?"
+                sides[i] = (c[1], r, c)
+    if "0" not in sides or "1" not in sides:
+        raise AnalysisError(f"{q}: limit tests `value < limits[0]` / `value > limits[1]` that raise not recognised (cannot decide)")
+    col.add(rule, f"{q}#lower-limit-raises", sides["0"][0] == "<", sx.loc(sides["0"][1]),
+            "a value below limits[0] raises (strictly below: the closed limit itself is allowed)", S.show(sides["0"][2]))
+    col.add(rule, f"{q}#upper-limit-raises", sides["1"][0] == ">", sx.loc(sides["1"][1]), "a value above limits[1] raises", S.show(sides["1"][2]))
+    chk = sx.pnamed("check_limits") if "check_limits" in sx.sym.params else None
+    for i in ("0", "1"):
+        r = sides[i][1]
+        conds = sx.conds(r.nid)
+        under_check = any(chk is not None and chk in S.alts(c) for c in conds)
+        # the comparison sits on every path (within one knob) from the point where limits are known to apply to the write
+        tests = [n.id for n in cfg.nodes.values() if n.kind == "test" and any(
+            s_ == sides[i][2] or S.neg(s_) == sides[i][2] for s_ in S.conjuncts(S.norm_cond(True, sx.sym.of(n.ast, n.id))) + S.conjuncts(S.norm_cond(False, sx.sym.of(n.ast, n.id))))]
+        limit_known = sx.branches(("cmp", "is not", ("sub", lim, ("const", i)), ("const", "None")))
+        hdrs = [g.of for g in cfg.guards(w.nid) if g.kind == "T" and isinstance(g.ast, (ast.For, ast.AsyncFor))]
+        before = bool(tests) and bool(limit_known) and all(not cfg.path_avoiding(b, w.nid, tests + hdrs) for b in limit_known
+                                                            if any(chk is not None and chk in S.alts(c) for c in sx.conds(b)) or True)
+        col.add(rule, f"{q}#limit-{i}-tested-before-write", before and under_check, sx.loc(r),
+                "with check_limits the limit is tested before the container is written (a refused value is never stored)",
+                f"conditions of the raise: {[S.show(c)[:50] for c in conds]}")
+    # ---- _get_x_limits
+    sx = octx(repo, "MeritFunctionForMatch", "_get_x_limits")
+    rets = sx.of_kind("return")
+    if not rets:
+        raise AnalysisError("MeritFunctionForMatch._get_x_limits: no return")
+    convs = []
+    inverse = mult = False
+    for r in rets:
+        for s_ in S.subterms(r.value):
+            if S.is_call_of(s_, meth="_knobs_to_x") and s_[1][1] == S.SELF:
+                colidx = [x[2][1][1] for x in S.subterms(s_) if x[:1] == ("sub",) and x[2][:1] == ("tuple",) and len(x[2][1]) == 2 and x[2][1][1][:1] == ("const",)]
+                convs.append(colidx[0][1] if colidx else "?")
+            if S.is_call_of(s_, meth="_x_to_knobs"):
+                mult = True
+            if s_[:1] in (("op",), ("aug",)) and S.contains(s_, lambda t: t[:1] == ("attr",) and t[2] == "weight"):
+                if s_[1] == "/":
+                    inverse = True
+                elif s_[1] == "*":
+                    mult = True
+    if not convs and not inverse and not mult:
+        raise AnalysisError("MeritFunctionForMatch._get_x_limits: conversion of the knob limits to solver space not recognised (cannot decide)")
+    col.add(rule, "MeritFunctionForMatch._get_x_limits#limits-to-solver-space", (bool(convs) or inverse) and not mult, sx.loc(sx.fn),
+            "knob limits are converted to solver space with _knobs_to_x (division by the weight), the inverse of what __call__ applies "
+            "(x = knob / weight)", f"_knobs_to_x on columns {convs}; division by weight: {inverse}; multiplication / _x_to_knobs: {mult}")
+    order_ok = False
+    for r in rets:
+        for s_ in S.subterms(r.value):
+            if s_[:1] in (("list",), ("tuple",)) and len(s_[1]) == 2:
+                a, b = s_[1]
+                ca = [x for x in S.subterms(a) if x[:1] == ("sub",) and x[2][:1] == ("tuple",) and x[2][1][-1] == ("const", "0")]
+                cb = [x for x in S.subterms(b) if x[:1] == ("sub",) and x[2][:1] == ("tuple",) and x[2][1][-1] == ("const", "1")]
+                if ca and cb:
+                    order_ok = True
+    if not convs:
+        order_ok = True
+    col.add(rule, "MeritFunctionForMatch._get_x_limits#low-then-high", order_ok, sx.loc(sx.fn), "column 0 holds the lower and column 1 the upper limit", "")
+    dflt = any(s_ == ("glob", "LIMITS_DEFAULT") for r in rets for s_ in S.subterms(r.value)) and \
+        any(S.contains(r.value, lambda t: t == ("attr", V, "limits")) for r in rets)
+    col.add(rule, "MeritFunctionForMatch._get_x_limits#default-limits", dflt, sx.loc(sx.fn), "a knob without limits gets the wide default limits", "")
+    # ---- JacobianSolver.step
+    sx = octx(repo, "JacobianSolver", "step")
+    cfg = sx.cfg
     q = "JacobianSolver.step"
-    tests = {}
-    for n in cfg.nodes.values():
-        if n.kind == "test":
-            p = A.compare_parts(n.ast)
-            if p and isinstance(p[0], ast.BinOp) and isinstance(p[0].op, ast.Sub) and "limits" in A.src(p[2]):
-                tests[A.src(p[2])[-3:]] = (type(p[1]).__name__, A.src(p[0]), n.id)
-    lo = tests.get("[0]")
-    hi = tests.get("[1]")
-    ok = lo is not None and hi is not None and lo[0] == "Lt" and hi[0] == "Gt" and lo[1] == hi[1]
-    col.add(rule, f"{q}#both-limit-sides", ok, cx.loc(lo[2]) if lo else cx.loc(cx.fn),
-            "each coordinate of the trial point is tested against its lower (<) and its upper (>) limit", str(tests))
+    X = S.sattr("x")
+    zeroed = {}
+    for e in sx.of_kind("store"):
+        if e.value == ("const", "0") and e.target[:1] == ("sub",):
+            for c0 in sx.conds(e.nid):      # innermost condition first: the test that triggers this zeroing
+                parts = list(c0[2]) if (c0[:1] == ("bool",) and c0[1] == "or") else [c0]
+                hit = False
+                for c in parts:
+                    if c[:1] == ("cmp",) and c[1] in ("<", ">", "<=", ">=") and c[2][:1] == ("op",) and c[2][1] == "-" and c[3][:1] == ("sub",) and c[3][2][:1] == ("const",):
+                        zeroed.setdefault(c[3][2][1], (c[1], c[2], c[3], e))
+                        hit = True
+                if hit:
+                    break
+    lo, hi = zeroed.get("0"), zeroed.get("1")
+    ok = lo is not None and hi is not None and lo[0] == "<" and hi[0] == ">" and lo[1] == hi[1]
+    col.add(rule, f"{q}#both-limit-sides", ok, sx.loc(lo[3]) if lo else sx.loc(sx.fn),
+            "each coordinate of the trial point is tested against its lower (<) and its upper (>) limit, and a coordinate that would "
+            "leave its limits is not moved (its step is set to 0)", str({k: (v[0], S.show(v[1])[:60]) for k, v in zeroed.items()}))
     if ok:
-        trial = lo[1]   # e.g. self.x[ii] - this_xstep[ii]
-        for key, t in (("lower", lo), ("upper", hi)):
-            tb = [b.id for b in cfg.nodes.values() if b.kind == "T" and b.of == t[2]][0]
-            body = [cfg.nodes[r].ast for r in cfg.reachable(tb, avoid=[b.id for b in cfg.nodes.values() if b.kind in ("for",)]) if cfg.nodes[r].kind == "stmt"]
-            zero = any(isinstance(s, ast.Assign) and isinstance(s.targets[0], ast.Subscript) and A.is_const(s.value, 0) and A.dotted(s.targets[0].value) in trial for s in body)
-            col.add(rule, f"{q}#{key}-limit-zeroes-step", zero, cx.loc(t[2]), "a coordinate that would leave its limits is not moved (its step is set to 0)", "")
-        stepname = trial.split(" - ")[1].split("[")[0]
-        ev = [c for c in A.calls(cx.fn) if is_self_call(c, "eval") and c.args and A.src(c.args[0]) == f"self.x - {stepname}"]
-        commit = [n for n in A.walk(cx.fn) if isinstance(n, ast.AugAssign) and isinstance(n.op, ast.Sub) and A.dotted(n.target) == "self.x" and A.dotted(n.value) == stepname]
-        col.add(rule, f"{q}#trial-equals-commit", len(ev) == 1 and len(commit) == 1, cx.loc(cx.fn),
-                "the point evaluated, the point limit-tested and the point committed are the same `x - step`", f"eval {len(ev)}, commit {len(commit)}")
-        lim = [n for n in A.walk(cx.fn) if isinstance(n, ast.Assign) and A.src(n.value) == "self.func._get_x_limits()"]
-        col.add(rule, f"{q}#limits-from-merit-function", len(lim) == 1, cx.loc(cx.fn), "the limits are the merit function's solver-space limits", "")
-    # _clip_to_limits (check_limits False mode)
-    cx = fnctx(repo, "Optimize", "_clip_to_limits")
-    ok = not A.has_fragments(cx.fn, ["{L} < {L}.limits[0]", "{L}.container[{L}.name] = {L}.limits[0]", "{L} > {L}.limits[1]", "{L}.container[{L}.name] = {L}.limits[1]"])
-    col.add(rule, "Optimize._clip_to_limits#clips-to-violated-limit", ok, cx.loc(cx.fn), "a value below/above its limit is set to that limit", "")
+        trial = lo[1]
+        i = trial[2][2] if trial[2][:1] == ("sub",) else None
+        same = trial[2][:1] == ("sub",) and trial[2][1] == X and trial[3][:1] == ("sub",) and trial[3][2] == i and lo[3].target == trial[3] and hi[3].target == trial[3]
+        col.add(rule, f"{q}#limit-test-on-the-trial-coordinate", same, sx.loc(lo[3]),
+                "the coordinate tested is x[i] - step[i] and the step zeroed is that same step[i]", S.show(trial))
+        step_vec = trial[3][1]
+        ev = [e for e, m in sx.calls_some(S.mcall(S.SELF, "eval", ("op", "-", X, S.V("s"))))]
+        ev_ok = any(S.match(e.term, S.mcall(S.SELF, "eval", ("op", "-", X, step_vec))) is not None for e in ev)
+        commits = [e for e in sx.of_kind("store") if e.target == X and e.value is not None and e.value[:1] == ("aug",) and e.value[1] == "-"]
+        com_ok = len(commits) == 1 and commits[0].value[3] == step_vec
+        col.add(rule, f"{q}#trial-equals-commit", ev_ok and com_ok, sx.loc(commits[0]) if commits else sx.loc(sx.fn),
+                "the point evaluated, the point limit-tested and the point committed are the same `x - step`",
+                f"evaluated with that step: {ev_ok}; committed with that step: {com_ok}")
+        lim_src = lo[2][1][1] if lo[2][1][:1] == ("sub",) else lo[2][1]
+        col.add(rule, f"{q}#limits-from-merit-function", lim_src == S.mcall(FUNC, "_get_x_limits"), sx.loc(sx.fn),
+                "the limits are the merit function's solver-space limits", S.show(lim_src)[:80])
+    # ---- _clip_to_limits (check_limits False mode)
+    sx = octx(repo, "Optimize", "_clip_to_limits")
+    cv = S.mcall(V, "get_value")
+    got = {}
+    for e, who in knob_store_events(sx):
+        for c in sx.conds(e.nid):
+            if c[:1] == ("cmp",) and c[2] == cv and c[3] == e.value:
+                got[S.show(e.value, False)] = c[1]
+    want = {S.show(("sub", ("attr", V, "limits"), ("const", "0")), False): "<", S.show(("sub", ("attr", V, "limits"), ("const", "1")), False): ">"}
+    col.add(rule, "Optimize._clip_to_limits#clips-to-violated-limit", got == want, sx.loc(sx.fn), "a value below/above its limit is set to that limit", str(got))
 
 
 def _stale_copy(col, rule="C10.R5"):
@@ -238,73 +296,103 @@ def _stale_copy(col, rule="C10.R5"):
                 copies[x.targets[0].id] = x.value.func.value.id
         for y, xname in copies.items():
             for loop in (l for l in A.walk(fn) if isinstance(l, (ast.For, ast.While))):
-                mutates = any(isinstance(s, ast.AugAssign) and A.dotted(s.target) == y or
-                              (isinstance(s, (ast.Assign, ast.AugAssign)) and any(isinstance(t, ast.Subscript) and A.dotted(t.value) == y
-                                                                                   for t in (s.targets if isinstance(s, ast.Assign) else [s.target])))
-                              for s in A.walk(loop))
-                whole = any(isinstance(s, ast.AugAssign) and A.dotted(s.target) == y for s in A.walk(loop))
-                if not mutates or not whole:
+                whole = any(isinstance(s_, ast.AugAssign) and A.dotted(s_.target) == y for s_ in A.walk(loop))
+                if not whole:
                     continue
                 n += 1
                 stale = [A.src(t.test) for t in A.walk(loop) if isinstance(t, (ast.If, ast.IfExp, ast.While)) and xname in A.names_loaded(t.test)
-                         and any(isinstance(s, ast.Subscript) and A.dotted(s.value) == xname for s in A.walk(t.test))]
+                         and any(isinstance(s_, ast.Subscript) and A.dotted(s_.value) == xname for s_ in A.walk(t.test))]
                 q = f"{c.name}.{fn.name}" if c else fn.name
                 col.add(rule, f"{q}#no-decision-on-stale-original:{xname}->{y}", not stale, mod.loc(loop),
                         f"`{y}` is a copy of `{xname}` rescaled as a whole inside the loop: from the second iteration on `{xname}` is a stale "
                         f"version of it, so no test of the loop may read `{xname}[...]`", str(stale))
     if n == 0:
-        # an implementation without such a loop (e.g. one min-factor applied once) has nothing to check
         fn = repo.method("MeritFunctionForMatch", "_clip_to_max_steps")
         col.ok(rule, "MeritFunctionForMatch._clip_to_max_steps#no-rescaling-loop", m.loc(fn), "no loop rescales a copy step by step", "")
-    cx = fnctx(repo, "MeritFunctionForMatch", "_clip_to_max_steps")
-    ok = not A.has_fragments(cx.fn, ["{L}.max_step", "np.abs("])
-    col.add(rule, "MeritFunctionForMatch._clip_to_max_steps#uses-max_step", ok, cx.loc(cx.fn), "the clip compares |step| with the knobs' max_step", "")
-    cx2 = fnctx(repo, "JacobianSolver", "step")
-    ok = not A.has_fragments(cx2.fn, ["{L} = {L}._clip_to_max_steps({L})"])
-    col.add(rule, "JacobianSolver.step#clips-newton-step", ok, cx2.loc(cx2.fn), "the Newton step is clipped to max_step before the line search", "")
+    sx = octx(repo, "MeritFunctionForMatch", "_clip_to_max_steps")
+    uses = False
+    for nd in sx.cfg.nodes.values():
+        if nd.kind == "test":
+            t = sx.sym.of(nd.ast, nd.id)
+            if S.contains(t, lambda x: x[:1] == ("attr",) and x[2] == "max_step") and S.contains(t, lambda x: S.is_call_of(x, ("attr", NP, "abs")) or S.is_call_of(x, ("glob", "abs"))):
+                uses = True
+    for r in sx.of_kind("return"):
+        if S.contains(r.value, lambda x: x[:1] == ("attr",) and x[2] == "max_step"):
+            uses = True
+    col.add(rule, "MeritFunctionForMatch._clip_to_max_steps#uses-max_step", uses, sx.loc(sx.fn), "the clip compares |step| with the knobs' max_step", "")
+    sx = octx(repo, "JacobianSolver", "step")
+    clips = sx.calls_some(("call", ("attr", S.V("f"), "_clip_to_max_steps"), (S.V("s"),), ()))
+    zeros = S.fcall(("attr", NP, "zeros"), S.fcall("len", S.sattr("x")))
+    ok = len(clips) == 1 and clips[0][1]["s"] == zeros
+    used = False
+    if clips:
+        for e, mm in sx.calls_some(S.mcall(S.SELF, "eval", ("op", "-", S.sattr("x"), S.V("s")))):
+            if S.contains(mm["s"], lambda t: t == clips[0][0].term):
+                used = True
+    col.add(rule, "JacobianSolver.step#clips-newton-step", ok and used, sx.loc(clips[0][0]) if clips else sx.loc(sx.fn),
+            "the full-length Newton step (one slot per knob, in knob order) is clipped to max_step before the line search, and the "
+            "clipped step is the one tried", f"clipped: {S.show(clips[0][1]['s'])[:80] if clips else None}; used for the trial points: {used}")
 
 
 def _masks(col, rule="C10.R6"):
     repo = col.repo
-    cx = fnctx(repo, "JacobianSolver", "step")
-    fr = [("{L} = np.zeros(len(self.x))", "the step vector starts as zeros (masked-out knobs do not move)"),
-          ("{L} = self.func.mask_input & self.mask_from_limits", "the input mask is active knobs and not-at-limit knobs"),
-          ("SVD({L}[{L}, :][:, {L}])", "the Jacobian is restricted to active targets (rows) and free knobs (columns)"),
-          ("{L}[{L}] = {L}.lstsq({L}[{L}]", "the restricted solve is written into the free knobs' slots, with the right-hand side restricted to active targets")]
-    for pat, text in fr:
-        col.add(rule, f"JacobianSolver.step#{pat[:28]}", not A.has_fragments(cx.fn, [pat]), cx.loc(cx.fn), text, "")
-    # same mask names on matrix and vectors
-    svd = [c for c in A.calls(cx.fn) if A.call_name(c) == "SVD"]
-    ls = [c for c in A.calls(cx.fn) if isinstance(c.func, ast.Attribute) and c.func.attr == "lstsq"]
-    ok = False
-    if len(svd) == 1 and len(ls) == 1 and isinstance(svd[0].args[0], ast.Subscript):
-        outer = svd[0].args[0]
-        inner = outer.value
-        try:
-            col_mask = A.src(outer.slice.elts[1])
-            row_mask = A.src(inner.slice.elts[0])
-            rhs_mask = A.src(ls[0].args[0].slice)
-            tgt = [n for n in A.walk(cx.fn) if isinstance(n, ast.Assign) and n.value is ls[0]]
-            lhs_mask = A.src(tgt[0].targets[0].slice) if tgt else None
-            ok = rhs_mask == row_mask and lhs_mask == col_mask and row_mask != col_mask
-        except Exception:
-            ok = False
-    col.add(rule, "JacobianSolver.step#same-masks-on-matrix-and-vectors", ok, cx.loc(cx.fn),
+    sx = octx(repo, "JacobianSolver", "step")
+    zeros = S.fcall(("attr", NP, "zeros"), S.fcall("len", S.sattr("x")))
+    MI = ("op", "&", ("attr", FUNC, "mask_input"), S.sattr("mask_from_limits"))
+    svd = sx.calls_some(("call", ("glob", "SVD"), (S.V("m"),), S.ANY))
+    ls = sx.calls_some(("call", ("attr", S.V("svd"), "lstsq"), S.V("a"), S.V("k")))
+    if len(svd) != 1 or len(ls) != 1:
+        raise AnalysisError("JacobianSolver.step: expected one SVD(...) and one lstsq(...) (cannot decide)")
+    mat = svd[0][1]["m"]
+    mm = S.match(mat, ("sub", ("sub", S.V("jac"), ("tuple", (S.V("rows"), ("slice", None, None, None)))), ("tuple", (("slice", None, None, None), S.V("cols")))))
+    col.add(rule, "JacobianSolver.step#jacobian-restricted-to-active-rows-and-free-columns", mm is not None, sx.loc(svd[0][0]),
+            "the Jacobian is restricted to active targets (rows) and free knobs (columns)", S.show(mat)[:100])
+    rhs = ls[0][1]["a"][0] if ls[0][1]["a"] else None
+    st = [e for e in sx.of_kind("store") if e.value is not None and S.is_call_of(e.value, meth="lstsq")]
+    ok = mm is not None and rhs is not None and rhs[:1] == ("sub",) and rhs[2] == mm["rows"] and len(st) == 1 and \
+        st[0].target[:1] == ("sub",) and st[0].target[2] == mm["cols"] and mm["rows"] != mm["cols"]
+    col.add(rule, "JacobianSolver.step#same-masks-on-matrix-and-vectors", ok, sx.loc(ls[0][0]),
             "rows of the matrix and the right-hand side use the output mask; columns and the solution slots use the input mask", "")
-    cx = fnctx(repo, "MeritFunctionForMatch", "__call__")
-    ok = not A.has_fragments(cx.fn, ["{L}[~self.mask_output] = 0"])
-    col.add(rule, "MeritFunctionForMatch.__call__#disabled-targets-zeroed", ok, cx.loc(cx.fn),
+    col.add(rule, "JacobianSolver.step#solution-into-zero-vector", len(st) == 1 and st[0].target[:1] == ("sub",) and st[0].target[1] == zeros, sx.loc(sx.fn),
+            "the step vector starts as zeros, one slot per knob (masked-out knobs do not move)", S.show(st[0].target)[:80] if st else "")
+    col.add(rule, "JacobianSolver.step#input-mask", mm is not None and mm["cols"] == MI, sx.loc(sx.fn),
+            "the input mask is active knobs and not-at-limit knobs", S.show(mm["cols"]) if mm else "")
+    okro = mm is not None and mm["rows"] in (("attr", FUNC, "mask_output"), S.mcall(("attr", FUNC, "mask_output"), "copy"))
+    col.add(rule, "JacobianSolver.step#output-mask", okro, sx.loc(sx.fn), "the output mask is the active targets", S.show(mm["rows"]) if mm else "")
+    # ---- disabled targets zeroed, and nothing un-zeroes them
+    sx = octx(repo, "MeritFunctionForMatch", "__call__")
+    cfg = sx.cfg
+    MO = S.sattr("mask_output")
+    zero = [e for e in sx.of_kind("store") if e.value == ("const", "0") and e.target[:1] == ("sub",) and e.target[2] == ("uop", "~", MO)]
+    col.add(rule, "MeritFunctionForMatch.__call__#disabled-targets-zeroed", len(zero) == 1, sx.loc(zero[0]) if zero else sx.loc(sx.fn),
             "the residuals of disabled targets are zeroed before they enter the penalty", "")
-    cx = fnctx(repo, "MeritFunctionForMatch", "get_jacobian")
-    skip = [n for n in cx.cfg.nodes.values() if n.kind == "stmt" and isinstance(n.ast, ast.Continue)]
-    ok = len(skip) == 1 and has_guard(cx.cfg, skip[0].id, "T", lambda t: isinstance(t, ast.UnaryOp) and isinstance(t.op, ast.Not) and "mask_input" in A.src(t))
-    col.add(rule, "MeritFunctionForMatch.get_jacobian#inactive-knobs-not-perturbed", ok, cx.loc(cx.fn),
+    if zero:
+        bases = set(S.alts(zero[0].target[1]))
+        bad = []
+        for e in sx.of_kind("store"):
+            if e is zero[0] or not cfg.path_avoiding(zero[0].nid, e.nid, []):
+                continue
+            t = e.target
+            if t[:1] == ("sub",) and any(S.contains(t[1], lambda x, b=b: x == b) for b in bases) and t[1] != zero[0].target[1] or \
+                    (t[:1] == ("sub",) and t[1] in bases):
+                idx = t[2]
+                if e.value is not None and e.value[:1] == ("aug",) and e.value[1] == "*":
+                    continue    # a zero stays zero
+                if not sx.under(e.nid, ("sub", MO, idx)):
+                    bad.append(f"{sx.loc(e)}: {S.show(('sub', ('glob', 'err_values'), idx))} = {S.show(e.value)[:50]}")
+        col.add(rule, "MeritFunctionForMatch.__call__#disabled-targets-stay-zero", not bad, sx.loc(zero[0]),
+                "after the masking, a residual is overwritten only for an active target (or rescaled, which keeps a zero)", "; ".join(bad[:2]))
+    sx = octx(repo, "MeritFunctionForMatch", "get_jacobian")
+    mi = ("attr", S.SELF, "mask_input")
+    pert = [e for e in sx.of_kind("store") if e.value is not None and e.value[:1] == ("aug",) and e.value[1] == "+"]
+    ok = bool(pert) and all(sx.under(e.nid, ("sub", mi, e.target[2])) for e in pert if e.target[:1] == ("sub",))
+    col.add(rule, "MeritFunctionForMatch.get_jacobian#inactive-knobs-not-perturbed", ok, sx.loc(sx.fn),
             "the finite-difference Jacobian does not perturb disabled knobs", "")
-    for prop, attr, owner in (("mask_input", "active", "self.vary"), ("mask_output", "active", "self.targets")):
-        fn = repo.method("MeritFunctionForMatch", prop)
-        ok = not A.has_fragments(fn, ["{L}.active"]) and owner in A.src(fn)
-        col.add(rule, f"MeritFunctionForMatch.{prop}#from-active-flags", ok, repo.cls("MeritFunctionForMatch").module.loc(fn),
-                f"{prop} reflects the active flags of {owner}", "")
+    for prop, owner in (("mask_input", "vary"), ("mask_output", "targets")):
+        psx = octx(repo, "MeritFunctionForMatch", prop)
+        el = ("elem", S.sattr(owner))
+        ok = any(S.contains(r.value, lambda t: t == ("attr", el, "active")) for r in psx.of_kind("return"))
+        col.add(rule, f"MeritFunctionForMatch.{prop}#from-active-flags", ok, psx.loc(psx.fn), f"{prop} reflects the active flags of self.{owner}", "")
 
 
 def check(col: Collector):
